@@ -119,8 +119,9 @@ example : DateTimeOK ⟨1999, 12, 31, 23, 59, 59, -34200⟩ := by unfold DateTim
 
 /-- Structural induction over the search-key tree: every key — NOT, OR and parenthesised lists nested to
 any depth, strings in any encoding (literals included), dates, numbers, sequence sets — is read back by
-`parseSearchKey`, provided the recursion budget `d` exceeds the nesting depth of the key (the Go code has
-no such budget: C11, #18). -/
+`parseSearchKey`, provided the number of levels `d` it may still descend exceeds the nesting depth of the key
+(at the top level `d = searchBudget = maxSearchKeyDepth + 1`, /repo c30e930: keys nested deeper are refused,
+so `CommandOK` for SEARCH includes `keyDepth k < searchBudget`). -/
 theorem searchkey_roundtrip (k : SearchKey) (c : Choices) (d fuel : Nat) (hf : 12 < fuel)
     (hk : KeyOK fuel k) (hd : keyDepth k < d) :
     RT (parseSearchKey d fuel) (printKey c k) k keyFollow :=
